@@ -584,6 +584,82 @@ fn shapes(tier: Tier, seed: u64) -> Vec<Shape> {
     out
 }
 
+struct FailAt<'a> {
+    data: &'a [u8],
+    pos: usize,
+    fails: Vec<usize>,
+}
+impl<'a> std::io::Read for FailAt<'a> {
+    fn read(&mut self, out: &mut [u8]) -> std::io::Result<usize> {
+        if let Some(i) = self.fails.iter().position(|f| *f == self.pos) {
+            self.fails.remove(i);
+            return Err(std::io::Error::new(std::io::ErrorKind::WouldBlock, "try again"));
+        }
+        match (self.data.get(self.pos), out.first_mut()) {
+            (Some(b), Some(o)) => {
+                *o = *b;
+                self.pos += 1;
+                Ok(1)
+            }
+            _ => Ok(0),
+        }
+    }
+}
+
+/// A stream that fails transiently `d` levels inside a nest (`reps` times, in
+/// `reps` datums), the caller goes on with the same parser: a datum of 100
+/// levels later in the stream is still accepted.
+fn check_transient(open: &str, d: usize, reps: usize, datum: bool) -> CaseResult {
+    let close = match open {
+        "(a . (" => "))",
+        _ => ")",
+    };
+    let per = if open == "(a . (" || open == "'(" { 2 } else { 1 };
+    let levels = (d / per).max(1);
+    let mut text = String::new();
+    let mut fails = Vec::new();
+    for _ in 0..reps {
+        text.push_str(&open.repeat(levels));
+        text.push('a');
+        fails.push(text.len());
+        text.push_str(" b");
+        text.push_str(&close.repeat(levels));
+        text.push('\n');
+    }
+    let deep = format!("{}x{}", "(".repeat(100), ")".repeat(100));
+    text.push_str(&deep);
+    text.push('\n');
+    let case = json!({"transient": {"open": open, "depth": d, "reps": reps, "datum": datum}});
+    let r = catch(|| {
+        let mut p = Parser::from_reader(FailAt { data: text.as_bytes(), pos: 0, fails: fails.clone() });
+        let mut last_ok: Option<String> = None;
+        let mut errors: Vec<String> = Vec::new();
+        for _ in 0..text.len() + 10 {
+            let item = if datum { p.next_datum().map(|o| o.map(|d| d.value().to_string())) } else { p.next_value().map(|o| o.map(|v| v.to_string())) };
+            match item {
+                Ok(Some(t)) => last_ok = Some(t),
+                Ok(None) => break,
+                Err(e) => {
+                    let t = err_text(&e);
+                    if !errors.contains(&t) && errors.len() < 6 {
+                        errors.push(t);
+                    }
+                }
+            }
+        }
+        (last_ok, errors)
+    });
+    match r {
+        Err(pm) => Err(Failure::new(format!("C03 mode=panic msg={} api=after-transient-failure", panic_sig(&pm)), pm, case)),
+        Ok((last, errors)) if last.as_deref() != Some(deep.as_str()) => Err(Failure::new(
+            format!("C03 mode=rejected-shallow after-transient-failure open={}", open.trim()),
+            format!("after {} transient read failure(s) {} levels inside {:?} the same parser no longer accepts a datum nested 100 levels (last item read {:?}, errors {:?}) [{} API]", reps, d, open, last.map(|l| clip(&l, 40)), errors, if datum { "datum" } else { "value" }),
+            case,
+        )),
+        Ok(_) => Ok(Eval::new(true, digest_of(&(open, d, reps, datum))).class("transient:then-deep")),
+    }
+}
+
 fn run(ctx: &mut Ctx) {
     let tier = ctx.tier;
     let seed = ctx.seed;
@@ -637,6 +713,17 @@ fn run(ctx: &mut Ctx) {
         }
     }
     ctx.flush_failures();
+    // ---- (d2) transient stream failures inside a nest, then a deep datum
+    for open in ["(", "#(", "'(", "(a . ("] {
+        for d in [1usize, 20, 60, 100] {
+            for reps in [1usize, 3, 7] {
+                for datum in [false, true] {
+                    ctx.observe("after-transient-failure", check_transient(open, d, reps, datum));
+                }
+            }
+        }
+    }
+    ctx.flush_failures();
     // ---- (e) child processes
     let sh = shapes(tier, seed);
     let specs: Vec<Json> = sh.iter().map(|s| serde_json::to_value(s).unwrap()).collect();
@@ -669,6 +756,9 @@ fn replay(_sub: &str, case: &Json) -> Option<CaseResult> {
     if let Some(n) = case.get("nest") {
         let n: Nest = serde_json::from_value(n.clone()).ok()?;
         return Some(check_nest(&n));
+    }
+    if let Some(t) = case.get("transient") {
+        return Some(check_transient(t["open"].as_str()?, t["depth"].as_u64()? as usize, t["reps"].as_u64()? as usize, t["datum"].as_bool()?));
     }
     if let Some(s) = case.get("shape") {
         let s: Shape = serde_json::from_value(s.clone()).ok()?;
